@@ -153,6 +153,7 @@ type Doc struct {
 	Body       *Node
 	Hints      bool
 	Engine     string // "pango" | "gotext"
+	Guard      bool   // add GuardSheet
 	Variant    bool   // write the injected invalid constructs
 	InjWhat    string // description of the injection
 }
@@ -184,6 +185,9 @@ func (d *Doc) Text() string {
 	if len(d.User) > 0 {
 		s += "\n/*user-stylesheet*/\n" + d.UserCSS()
 	}
+	if d.Guard {
+		s += "\n/*user-stylesheet-2*/\n" + GuardSheet
+	}
 	s += fmt.Sprintf("\n/*config hints=%v engine=%s*/", d.Hints, d.Engine)
 	return s
 }
@@ -193,8 +197,17 @@ func (d *Doc) Case() Case {
 	if len(d.User) > 0 {
 		c.User = []string{d.UserCSS()}
 	}
+	if d.Guard {
+		c.User = append(c.User, GuardSheet)
+	}
 	return c
 }
+
+// GuardSheet is added (as a second user style sheet) to both documents of a metamorphic pair: it
+// keeps <head> and its <style> element undisplayed whatever the generated rules say (`*`,
+// `:first-child`, `:not(.c1)` ... match them), because the TEXT of the <style> element differs
+// between the two documents by construction and would otherwise be drawn.
+const GuardSheet = "head, head * { display: none !important }\n"
 
 func (d *Doc) CountNodes() int {
 	var f func(n *Node) int
@@ -845,6 +858,11 @@ func (g *gen) node(depth, budget int) (*Node, int) {
 	case "dl":
 		for i := 0; i < r.Range(0, 3); i++ {
 			n.Kids = append(n.Kids, &Node{Tag: pick(r, []string{"dt", "dd"}), Kids: []*Node{g.text(4)}})
+		}
+		return n, budget
+	case "textarea": // RCDATA: markup inside is text
+		if r.P(1, 2) {
+			n.Kids = append(n.Kids, g.text(4))
 		}
 		return n, budget
 	case "details":
